@@ -21,6 +21,9 @@ def path_modes(ctx, job, box):
     via = job.params.get('via', 'api')
     if job.params.get('wide'):
         run = GridRun(ctx, box, cols, lines, cursor=(3, 0), tabstops=1, titles='none', savepoints=0, buffer='none')
+    elif job.params.get('remote'):
+        run = GridRun(ctx, box, cols, lines, tabstops=1, titles='none', savepoints=0, dirty='none', extra_mode=False,
+                      **remote_opts(cols, lines))
     else:
         run = GridRun(ctx, box, cols, lines, cursor='pick', tabstops=1, titles='none', savepoints=0)
     L = run.L
@@ -198,6 +201,9 @@ def jobs(tier):
     for op in ('set_mode', 'reset_mode'):
         js.append(Job('%s/?3/132x1' % op, path_modes, op=op, n=1, geom=(132, 1), wide=True, fixed=([3], True), prop=PROP))
         js.append(Job('%s/96/132x1' % op, path_modes, op=op, n=1, geom=(132, 1), wide=True, fixed=([96], False), prop=PROP))
+    # a sparsely written larger screen: the per-cell effects (reverse video, erase) far from the origin
+    for op in ('set_mode', 'reset_mode'):
+        js.append(Job('remote/%s/1/9x6' % op, path_modes, op=op, n=1, geom=(9, 6), remote=True, prop=PROP))
     # screens wider than the 132 columns DECCOLM switches to (and wider than a byte can count)
     for w in ((133, 256) if tier == 'quick' else (131, 133, 140, 255, 256, 257, 300, 512)):
         js.append(Job('set_mode/?3/%dx1' % w, path_modes, op='set_mode', n=1, geom=(w, 1), wide=True, fixed=([3], True), prop=PROP))
@@ -213,6 +219,6 @@ META = {
     'bounds': 'mode lists of 1..2 (thorough 3) symbolic numbers 0..=9999 with a symbolic private flag, from symbolic '
               'states on {2x1,2x2,1x3} (thorough + {1x1,3x2,2x3}); the 132-column switch is executed for real; the DECCOLM '
               'round trip SM ?3 / RM ?3 from every state',
-    'outside': 'longer mode lists; grids wider than 3 columns other than the 132-column cases and the never-written '
+    'outside': 'longer mode lists; grids wider than 3 columns other than a sparsely written 9x6 one, the 132-column cases and the never-written '
                'wide screens (quick 133, 256; thorough 131..512 columns) on which SM ?3 and the round trip are run',
 }
